@@ -18,7 +18,7 @@ from pathlib import Path
 from harness.py2coq import B, OBJ, PREAMBLE, Q, S, TUP, Z, Translator, Untranslatable, find_def
 
 VERIF = Path(__file__).resolve().parent.parent
-COQ = VERIF / 'coq'
+COQ = Path(os.environ.get('VERIF_COQ_DIR') or VERIF / 'coq')
 
 BBOX = 'photutils/aperture/bounding_box.py'
 CLASSES = {
